@@ -1563,6 +1563,220 @@ def oracle_rbmult(seed):
     return out
 
 
+# --- rbmultchk on exact (rational) data: scale of the rigid-body modes, coordinates, unit scales, flagged rows -------------
+
+RBCHK_DEN = 400
+
+
+def _rat_rot(rng, plain=False):
+    """an orthogonal matrix with entries in {0, +-1, +-3/5, +-4/5}: a signed permutation (det +1), optionally times one
+    3-4-5 rotation about a coordinate axis"""
+    from fractions import Fraction as Fr
+
+    perm = [int(x) for x in rng.permutation(3)]
+    sg = [int(x) for x in rng.choice([-1, 1], 3)]
+    P = [[Fr(sg[i]) if perm[i] == j else Fr(0) for j in range(3)] for i in range(3)]
+    if plain or rng.random() < 0.4:
+        return P
+    c, s_ = [(Fr(3, 5), Fr(4, 5)), (Fr(4, 5), Fr(-3, 5)), (Fr(-3, 5), Fr(4, 5)), (Fr(0), Fr(1))][int(rng.integers(0, 4))]
+    ax = int(rng.integers(0, 3))
+    i, j = [(1, 2), (2, 0), (0, 1)][ax]
+    R = [[Fr(int(a == b)) for b in range(3)] for a in range(3)]
+    R[i][i], R[i][j], R[j][i], R[j][j] = c, -s_, s_, c
+    return [[sum(P[a][k] * R[k][b] for k in range(3)) for b in range(3)] for a in range(3)]
+
+
+def _fmat(rows):
+    return np.array([[float(x) for x in r] for r in rows], float)
+
+
+def rbchk_cases(rng, n):
+    """data recovery matrices whose product with the rigid-body modes is known exactly: displacement rows of nodes
+    (any local system, any output scale) recovered from one of the boundary grids, in any order, mixed with rotation
+    rows, NULL rows, rows that act on modal DOF only and triples that are NOT rigid; everything a multiple of 1/400"""
+    from fractions import Fraction as Fr
+
+    cases = []
+    for ci in range(n):
+        ngb = int(rng.integers(1, 3))
+        q4 = lambda: Fr(int(rng.integers(-40, 41)), 4)  # noqa: E731
+        ref = [q4() for _ in range(3)]
+        su = [Fr(1), Fr(1), Fr(2), Fr(1, 2)][int(rng.integers(0, 4))]
+        bpts = [[q4() for _ in range(3)] for _ in range(ngb)]
+        Qg = [_rat_rot(rng, plain=True) for _ in range(ngb)]
+
+        def rb6f(p, r):
+            d = [p[i] - r[i] for i in range(3)]
+            X = [[Fr(0), d[2], -d[1]], [-d[2], Fr(0), d[0]], [d[1], -d[0], Fr(0)]]  # -skew(d)
+            top = [[Fr(int(i == j)) for j in range(3)] + X[i] for i in range(3)]
+            bot = [[Fr(0)] * 3 + [Fr(int(i == j)) for j in range(3)] for i in range(3)]
+            return top + bot
+
+        def mm(A, B):
+            return [[sum(A[i][k] * B[k][j] for k in range(len(B))) for j in range(len(B[0]))] for i in range(len(A))]
+
+        def blk(Q):
+            return [[Q[i][j] if (i < 3 and j < 3) else (Q[i - 3][j - 3] if (i >= 3 and j >= 3) else Fr(0)) for j in range(6)] for i in range(6)]
+
+        rb = []
+        for g in range(ngb):
+            rb += [[su * x for x in row] for row in mm(blk(Qg[g]), rb6f(bpts[g], ref))]
+        nb = 6 * ngb
+        nq = int(rng.choice([0, 0, 3]))
+        segs, rows_b, rows_q = [], [], []
+        nseg = int(rng.integers(1, 7))
+        for _ in range(nseg):
+            kind = str(rng.choice(["node", "node", "node", "rot", "null", "modal", "bad"]))
+            g = int(rng.integers(0, ngb))
+            if kind in ("node", "bad", "rot"):
+                p = [q4() for _ in range(3)]
+                Qn = _rat_rot(rng)
+                sn = [Fr(1), Fr(1), Fr(2), Fr(1, 2), Fr(4)][int(rng.integers(0, 5))]
+                # motion of the point in its own axes for unit motion of the boundary grid in the grid's (scaled) axes
+                full = mm(mm(blk(Qn), rb6f(p, bpts[g])), [[x / su for x in row] for row in [list(r) for r in zip(*blk(Qg[g]))]])
+                sel = full[:3] if kind != "rot" else full[3:]
+                sel = [[sn * x for x in row] for row in sel]
+                if kind == "bad":
+                    # not a rigid combination: an extra, NON-antisymmetric coupling of the translations to the rotations
+                    e = Fr(int(rng.integers(8, 40)), 4) * (1 if rng.random() < 0.5 else -1)
+                    E = [[Fr(0)] * 6 for _ in range(3)]
+                    E[0][4] = e
+                    E[1][3] = e
+                    extra = mm(mm([[sn * x for x in r] for r in Qn], E), [[x / su for x in row] for row in [list(r) for r in zip(*blk(Qg[g]))]])
+                    sel = [[sel[i][j] + extra[i][j] for j in range(6)] for i in range(3)]
+                for r in sel:
+                    row = [Fr(0)] * nb
+                    row[6 * g:6 * g + 6] = r
+                    rows_b.append(row)
+                    rows_q.append([Fr(int(rng.integers(-8, 9)), 4) for _ in range(nq)])
+                segs.append(dict(kind=kind, p=[float(p[i] - ref[i]) for i in range(3)], scale=float(sn / su)))
+            elif kind == "null":
+                rows_b.append([Fr(0)] * nb)
+                rows_q.append([Fr(0)] * nq)
+                segs.append(dict(kind=kind))
+            else:
+                if nq == 0:
+                    continue
+                rows_b.append([Fr(0)] * nb)
+                rows_q.append([Fr(int(rng.integers(1, 9)), 4) for _ in range(nq)])
+                segs.append(dict(kind=kind))
+        if not rows_b:
+            continue
+        layout = ["first", "last", "vec"][ci % 3] if nq else "full"
+        nc = nb + nq
+        if layout == "first" or layout == "full":
+            posb = list(range(nb))
+        elif layout == "last":
+            posb = list(range(nq, nc))
+        else:
+            posb = sorted(int(x) for x in rng.choice(nc, nb, replace=False))
+        posq = [i for i in range(nc) if i not in posb]
+        drm = []
+        for rb_, rq_ in zip(rows_b, rows_q):
+            row = [Fr(0)] * nc
+            for kk, pos in enumerate(posb):
+                row[pos] = rb_[kk]
+            for kk, pos in enumerate(posq):
+                row[pos] = rq_[kk]
+            drm.append(row)
+        den = RBCHK_DEN
+        ok = all((x * den).denominator == 1 for r in drm + rb for x in r)
+        if not ok:
+            continue
+        cases.append(dict(drm_i=[[int(x * den) for x in r] for r in drm], rb_i=[[int(x * den) for x in r] for r in rb], den=den,
+                          layout=layout, posb=posb, nb=nb, nc=nc, segs=segs, su=float(su)))
+    return cases
+
+
+def run_rbchk(c, bset=None, rb=None, prtnull=False):
+    from pyyeti import cb
+
+    f = io.StringIO()
+    drm = np.array(c["drm_i"], float) / c["den"]
+    rbm = np.array(c["rb_i"], float) / c["den"] if rb is None else rb
+    if bset is None:
+        bset = {"first": "first", "last": "last", "full": "first"}.get(c["layout"], None)
+        if bset is None:
+            bset = np.array(c["posb"])
+    with warnings.catch_warnings():
+        warnings.simplefilter("ignore")
+        out = cb.rbmultchk(f, drm, "DRM", rbm, bset=bset, prtnullrows=prtnull)
+    return out, f.getvalue()
+
+
+def rbchk_request(c, spec=None):
+    spec = spec or {"first": "first", "last": "last", "full": "first", "vec": "vec"}[c["layout"]]
+    nr = len(c["drm_i"])
+    parts = ["rbchk", str(c["den"]), spec, str(nr), str(c["nc"]), str(len(c["rb_i"]))]
+    if spec == "vec":
+        parts.append(str(len(c["posb"])) + " " + ints(c["posb"]))
+    parts.append(ints(c["drm_i"]))
+    parts.append(ints(c["rb_i"]))
+    return " ".join(parts)
+
+
+def _q(tok):
+    from fractions import Fraction as Fr
+
+    return None if tok == "nan" else Fr(tok)
+
+
+def parse_rbchk_reply(rep):
+    sec = [x.strip() for x in rep.split("|")]
+    head = sec[0].split()
+    if head[0] == "err":
+        return {"status": "err", "err": head[1]}
+    if head[0] == "ok-borderline":
+        return {"status": "borderline"}
+    out = {"status": "ok", "s2": _q(head[1])}
+    out["pv"] = [t == "1" for t in sec[1].split()]
+    out["coords"] = [None if r.split()[0] == "nan" else [float(_q(t)) for t in r.split()] for r in sec[2].split(";")] if sec[2] else []
+    out["us2"] = [None if t == "nan" else float(_q(t)) for t in sec[3].split()]
+    out["extremes"] = None if sec[4] == "none" else [float(_q(t)) for t in sec[4].split()]
+    out["null"] = [int(t) for t in sec[5].split()]
+    out["model_scale"] = float(_q(sec[6]))
+    out["drmrb"] = np.array([float(_q(t)) for t in sec[7].split()]).reshape(-1, 6) if sec[7] else np.zeros((0, 6))
+    return out
+
+
+def parse_rbmult_report(txt):
+    """the tables of the rbmultchk report: printed rb scale, extreme coordinates, per row (coordinates or blank, unit
+    scale, responses), NULL rows"""
+    out = {"rows": {}, "null": None}
+    m = re.search(r"rb scaling which is: (\S+)", txt)
+    out["rbscale"] = float(m.group(1)) if m else None
+    if "-- no coordinates detected --" in txt:
+        out["extremes"] = None
+    else:
+        mn = re.search(r"Minimums:(.*)", txt)
+        mx = re.search(r"Maximums:(.*)", txt)
+        out["extremes"] = [float(t) for t in re.findall(_NUM, mn.group(1))] + [float(t) for t in re.findall(_NUM, mx.group(1))] if mn and mx else "missing"
+    i = txt.find("* RB results:")
+    j = txt.find("Absolute Maximums from")
+    sect = txt[i:j]
+    k = sect.find("------")
+    for ln in sect[k:].split("\n")[1:]:
+        v = re.findall(_NUM, ln)
+        if len(v) == 11:
+            out["rows"][int(v[0]) - 1] = dict(coords=[float(t) for t in v[1:4]], scale=float(v[4]), resp=[float(t) for t in v[5:]])
+        elif len(v) == 7:
+            out["rows"][int(v[0]) - 1] = dict(coords=None, scale=None, resp=[float(t) for t in v[1:]])
+    if "There are no NULL rows in DRM." in txt:
+        out["null"] = []
+    else:
+        i = txt.find("NULL rows in DRM:")
+        if i >= 0:
+            rows = []
+            for ln in txt[i:].split("\n")[3:]:
+                v = re.findall(r"^\s*(\d+)\s*$", ln)
+                if v:
+                    rows.append(int(v[0]) - 1)
+                elif rows:
+                    break
+            out["null"] = rows
+    return out
+
+
 def cbtf0_cases(rng, n):
     cases = []
     for i in range(n):
@@ -1919,6 +2133,7 @@ def correspondence(ctx):
     cg_cases = cgmass_cases(ctx, rng, ctx.pick(400, 4000))
     for c in cg_cases:
         req.append("cgmass " + bits(c["m"]))
+        req.append("princ " + bits(c["m"]))
     # --- B: rbgeom / rbmove ------------------------------------------------------------
     rng = ctx.np_rng(2)
     geo = []
@@ -2043,6 +2258,22 @@ def correspondence(ctx):
                                                              list(range(c["nc"]))))
         c["bs"] = bs
         req.append("rbmult %d %d %d %s %s %s" % (c["drm"].shape[0], c["nc"], len(bs), ints(bs), bits(c["drm"]), bits(c["rb"])))
+    # --- M: rbmultchk on exact data (scale of the modes, coordinates, unit scales, flagged rows) ------------------
+    rng = ctx.np_rng(13)
+    rc_cases = rbchk_cases(rng, ctx.pick(90, 700))
+    for c in rc_cases:
+        req.append(rbchk_request(c))
+    rc_err = []
+    for c in rc_cases:
+        if len(rc_err) >= 4:
+            break
+        if len(rc_err) % 2 == 0 and c["nc"] > c["nb"]:
+            rc_err.append((c, "bsetString"))
+            req.append(rbchk_request(c, spec="middle"))
+        elif len(rc_err) % 2 == 1:
+            z = dict(c, rb_i=[[0] + r[1:] for r in c["rb_i"]])
+            rc_err.append((z, "scale"))
+            req.append(rbchk_request(z))
     # --- K: cbtf at 0 Hz ----------------------------------------------------------------------------------
     rng = ctx.np_rng(11)
     c0_cases = cbtf0_cases(rng, ctx.pick(60, 600))
@@ -2067,10 +2298,22 @@ def correspondence(ctx):
         cmp("cgmass", "mcg", inp, mcg, v[:36].reshape(6, 6), sc)
         cmp("cgmass", "dxyz", inp, d, v[36:39], max(np.abs(d).max(), 1e-30 + sc / np.abs(np.diag(c["m"])[:3]).max() * 0))
         cmp("cgmass", "gyr", inp, gyr, v[39:42])
+        # principal axes: the model's own symmetric eigen-solver (Jacobi) with its specification residuals measured
+        pv = unbits(rep[k].split(" ")[:8])
+        asc = rep[k].split(" ")[8]
+        k += 1
+        isc = max(np.abs(I).max(), 1e-300)
+        if not (pv[6] <= 1e-12 and pv[7] <= 1e-12 and asc == "1"):
+            ctx.disagree("cgmass-eigh-spec", inp, {"VtV-1": float(pv[6]), "VtIV-diag(w) (relative)": float(pv[7]), "ascending": asc},
+                         "<= 1e-12, ascending")
+        cmp("cgmass-principal", "princ_I", inp, np.diag(pI), pv[:3], isc)
+        cmp("cgmass-principal", "princ_gyr", inp, pgyr, pv[3:6], max(np.abs(pv[3:6]).max(), 1e-300), 1e-8)
+        if np.abs(pI - np.diag(np.diag(pI))).max() != 0:
+            ctx.disagree("cgmass-principal", inp, "princ_I is not diagonal", "np.diag(w)")
         mcg2, d2 = cb.cgmass(c["m"])
         if not (np.array_equal(mcg2, mcg) and np.array_equal(d2, d)):
             ctx.disagree("cgmass", inp, "all6=False differs from all6=True", "same values")
-        ctx.case(("cgmass", rep[k - 1][:60]), nontrivial=bool(np.any(c["truth"]["d"] != 0)), branch="cgmass:" + c["kind"])
+        ctx.case(("cgmass", rep[k - 2][:60]), nontrivial=bool(np.any(c["truth"]["d"] != 0)), branch="cgmass:" + c["kind"])
     # B
     for c in geo:
         rb = n2p.rbgeom(c["grids"], c["ref_arg"])
@@ -2304,6 +2547,83 @@ def correspondence(ctx):
         cmp("rbmultchk", "drmrb", {"mode": c["mode"], "bset": c["bs"], "drm": c["drm"].tolist(), "rb": c["rb"].tolist()}, got, want,
             None, 1e-12)
         ctx.case(("rbmult", rep[k - 1][:60]), branch="rbmult:" + c["mode"])
+    # M
+    for c in rc_cases:
+        mo = parse_rbchk_reply(rep[k])
+        k += 1
+        inp = {"drm_i": c["drm_i"], "rb_i": c["rb_i"], "den": c["den"], "layout": c["layout"], "posb": c["posb"]}
+        ctx.case(("rbchk", json.dumps(inp)), branch="rbchk:layout-" + c["layout"])
+        for kd in set(sg["kind"] for sg in c["segs"]):
+            ctx.count("rbchk:" + kd)
+        try:
+            got, txt = run_rbchk(c)
+        except Exception as e:  # noqa: BLE001
+            ctx.disagree("rbmultchk-exact", inp, "exception %s: %s" % (type(e).__name__, str(e)[:200]), mo["status"])
+            continue
+        if mo["status"] == "borderline":
+            ctx.skip("rbmultchk: a comparison of find_xyz_triples is within 1e-9 of its threshold")
+            continue
+        if mo["status"] != "ok":
+            ctx.disagree("rbmultchk-exact", inp, "a result", mo)
+            continue
+        sc = max(np.abs(mo["drmrb"]).max(), 1e-300)
+        cmp("rbmultchk-exact", "drmrb", inp, got, mo["drmrb"], sc, 1e-12)
+        rp = parse_rbmult_report(txt)
+        if rp["rbscale"] is None or abs(rp["rbscale"] - math.sqrt(mo["s2"])) > 1e-12 * math.sqrt(mo["s2"]):
+            ctx.disagree("rbmultchk-rbscale", inp, rp["rbscale"], math.sqrt(mo["s2"]))
+        nr = len(c["drm_i"])
+        null = mo["null"]
+        if rp["null"] != null:
+            ctx.disagree("rbmultchk-null-rows", inp, rp["null"], null)
+        shown = [i for i in range(nr) if i not in null] if (null and len(null) < nr) else (list(range(nr)) if not null else [])
+        if sorted(rp["rows"]) != shown:
+            ctx.disagree("rbmultchk-table-rows", inp, sorted(rp["rows"]), shown)
+        else:
+            csc = max(1.0, mo["model_scale"])
+            for i in shown:
+                r, mc_ = rp["rows"][i], mo["coords"][i]
+                if (r["coords"] is None) != (mc_ is None):
+                    ctx.disagree("rbmultchk-triple-detection", inp, {"row": i, "printed coordinates": r["coords"]}, {"model": mc_})
+                    break
+                if mc_ is not None:
+                    if not np.all(np.abs(np.array(r["coords"]) - np.array(mc_)) <= 0.6e-4 + 1e-9 * csc):
+                        ctx.disagree("rbmultchk-coordinates", inp, {"row": i, "printed": r["coords"]}, mc_)
+                        break
+                    us = math.sqrt(mo["us2"][i])
+                    if abs(r["scale"] - us) > 0.7e-5 * us:
+                        ctx.disagree("rbmultchk-unit-scale", inp, {"row": i, "printed": r["scale"]}, us)
+                        break
+                if not np.all(np.abs(np.array(r["resp"]) - mo["drmrb"][i]) <= 0.6e-3 + 1e-9 * sc):
+                    ctx.disagree("rbmultchk-responses", inp, {"row": i, "printed": r["resp"]}, mo["drmrb"][i].tolist())
+                    break
+        if mo["extremes"] is None:
+            if rp["extremes"] is not None:
+                ctx.disagree("rbmultchk-extremes", inp, rp["extremes"], "no coordinates detected")
+        elif rp["extremes"] in (None, "missing") or not np.all(np.abs(np.array(rp["extremes"]) - np.array(mo["extremes"])) <= 0.6e-4 + 1e-9 * max(1.0, mo["model_scale"])):
+            ctx.disagree("rbmultchk-extremes", inp, rp["extremes"], mo["extremes"])
+        # a non-rigid triple must be blank; a node must be found (against the generator's intent, exact rule = the model)
+        rowi = 0
+        for sg in c["segs"]:
+            ln = 3 if sg["kind"] in ("node", "bad", "rot") else 1
+            if sg["kind"] == "bad" and all(mo["coords"][rowi + t] is None for t in range(3)):
+                ctx.count("rbchk:flagged-nonrigid")
+            if sg["kind"] == "node" and all(mo["coords"][rowi + t] is not None for t in range(3)):
+                ctx.count("rbchk:node-found")
+            rowi += ln
+    for c, kind in rc_err:
+        mo = parse_rbchk_reply(rep[k])
+        k += 1
+        inp = {"drm_i": c["drm_i"], "rb_i": c["rb_i"], "den": c["den"], "error-variant": kind}
+        try:
+            run_rbchk(c, bset="middle" if kind == "bsetString" else None)
+            got = "a result"
+        except ValueError as e:
+            got = "bsetString" if "invalid `bset` string" in str(e) else ("scale" if "failed to get scale" in str(e) else "ValueError: " + str(e)[:60])
+        except Exception as e:  # noqa: BLE001
+            got = "%s: %s" % (type(e).__name__, str(e)[:60])
+        if mo.get("err") != kind or got != kind:
+            ctx.disagree("rbmultchk-errors", inp, got, mo)
+        ctx.case(("rbchk-error", kind, json.dumps(inp)[:200]), branch="rbchk:err-" + kind)
     # K
     for c in c0_cases:
         tf = run_cbtf0(c)
@@ -2347,6 +2667,8 @@ def correspondence(ctx):
         "netdrm:tau-natural", "netdrm:g-other", "netdrm:single-grid", "netdrm:conv-string", "netdrm:axial-0", "netdrm:axial-1",
         "netdrm:axial-2",
         "rbmult:first", "rbmult:last", "rbmult:vector", "rbmult:full",
+        "rbchk:layout-first", "rbchk:layout-last", "rbchk:layout-vec", "rbchk:layout-full", "rbchk:node", "rbchk:rot", "rbchk:null",
+        "rbchk:modal", "rbchk:bad", "rbchk:flagged-nonrigid", "rbchk:node-found", "rbchk:err-bsetString", "rbchk:err-scale",
         "cbtf0:bfirst", "cbtf0:blast", "cbtf0:bmixed", "cbtf0:bnoq-permuted",
     ])
 
